@@ -123,6 +123,12 @@ def generate(seed: int, tier: str = "quick") -> dict:
     if R.sub(seed, "deepcopy").random() < 0.12:
         opts["deepcopy_markets"] = True  # the markets that run are deep copies of the configured ones (BacktestManager's way)
         faults.append({"kind": "markets_are_deep_copies_of_the_configured_ones"})
+    if k == 1 and R.sub(seed, "direct_drive").random() < 0.08:
+        # the market driven without Actuator.run(), the way demeter's unit tests do: every bar's status carries its data row -
+        # a fresh row, or one row object the caller keeps and overwrites for each new bar
+        opts["drive"] = R.sub(seed, "direct_drive_kind").choice(["direct", "direct_reuse_row"])
+        program = [o for o in program if o["phase"] not in ("trigger", "notify")]
+        faults.append({"kind": "market_driven_without_the_actuator:" + opts["drive"]})
     return {"property": ID, "seed": seed, "world": world, "program": program, "faults": faults, "opts": opts}
 
 
